@@ -308,7 +308,9 @@ def judge_traces(ctx, module, cfg, traces, strict=None, shard_lines=6000, label=
     scenarios are isolated; each is re-validated under each listed known-finding relaxation
     (exactly one switched on); what remains rejected is a violation."""
     strict = dict(strict or {})
-    known = load_known(ctx.pid)
+    cfg_text = open(os.path.join(SPEC, cfg)).read()
+    # only the relaxations this trace specification knows about apply to it
+    known = [k for k in load_known(ctx.pid) if re.search(r'\b%s\s*=' % re.escape(k['relaxation']), cfg_text)]
     shards = []
     sd = ctx.sub('shards')
     for t in traces:
